@@ -114,6 +114,15 @@ fn group_guarded(ser: &str, epoch: &str) -> Result<Option<String>, ()> {
 
 pub fn c17(tier: &str, seed: u64) {
   let mut g = Sm::new(seed, "oracle.C17");
+  // create_share alone at thresholds around the 16-bit mark (grouping that many shares is out of
+  // reach, the comparison with the core derivation is not)
+  for t in [65_535u32, 65_536, 65_537, 70_000, 100_000] {
+    let m = { let n = g.range(0, 20) as usize; g.blob(n) };
+    let epoch = gen_epoch(&mut g);
+    let _ = checked_create(&m, t, &epoch);
+    case(true);
+    stat("oracle.C17.create_share_thresholds_beyond_16_bits");
+  }
   let n = if quick(tier) { 1500 } else { 15000 };
   for case_i in 0..n {
     let t: u32 = match case_i % 8 {
@@ -369,6 +378,41 @@ pub fn c18(tier: &str, seed: u64) {
   let mut g = Sm::new(seed, "oracle.C18");
   let q = quick(tier);
   c18_partial_tag_collisions(&mut g, q);
+  // HIGH thresholds with LARGE buckets (a bucket cut into jobs must still count as one): thresholds
+  // above 32 with one measurement of 65..200 reports, next to groups at / just below the threshold
+  for (t, big) in [(33u32, 65usize), (40, 70), (65, 129), (33, 200), (100, 101)] {
+    let epoch = "hi";
+    let mut clients: Vec<(Vec<u8>, Option<Vec<u8>>)> = Vec::new();
+    for (name, cnt) in [("popular", big), ("exact", t as usize), ("short", t as usize - 1)] {
+      for i in 0..cnt {
+        clients.push((name.as_bytes().to_vec(), if i % 3 == 0 { None } else { Some(vec![(i % 251) as u8, (i / 251) as u8, 9]) }));
+      }
+    }
+    g.shuffle(&mut clients);
+    let msgs: Vec<Message> = clients.iter().map(|(m, a)| make_client(m, epoch.as_bytes(), t, a.clone(), None).msg).collect();
+    let mut want: Bag = BTreeMap::new();
+    for (m, a) in clients.iter().filter(|(m, _)| m != b"short") {
+      want.entry(m.clone()).or_insert_with(|| vec![vec![]])[0].push(a.clone());
+    }
+    for v in want.values_mut() {
+      v[0].sort();
+    }
+    for threads in [1usize, 8] {
+      let d = |got: &str| vec![("what", format!("threshold {} with groups of {} / {} / {} reports", t, big, t, t - 1)), ("threshold", t.to_string()), ("epoch", epoch.to_string()), ("threads", threads.to_string()), ("expected", show_bag(&want).chars().take(600).collect()), ("got", got.chars().take(600).collect())];
+      match run_server(t, epoch, &msgs, threads) {
+        None => fail("server_panicked", &d("")),
+        Some(outs) => {
+          let got = bag(&outs);
+          if got != want {
+            let kind = if got.values().any(|v| v.len() > 1) { "measurement_output_twice" } else if want.keys().any(|k| !got.contains_key(k)) { "measurement_missing" } else if got.keys().any(|k| !want.contains_key(k)) { "below_threshold_measurement_output" } else { "wrong_associated_data" };
+            fail(kind, &d(&show_bag(&got)));
+          }
+        }
+      }
+      case(true);
+      stat("oracle.C18.high_thresholds_large_buckets");
+    }
+  }
   let n = if q { 500 } else { 4000 };
   for case_i in 0..n {
     let t = match case_i % 6 {
